@@ -10,14 +10,14 @@ P = {
  "C01": ("Coq proof: treap model (split/join/union/insert/delete/lookup/min/max/totals) refines a strictly sorted association list, lifted over operation lists (Store.run); correspondence: extracted model + sorted-map reference vs implementation on seeded histories",
          "Theorems (Props/C01.v) hold for every comparator satisfying the laws, every tree and every operation list; the model is tied to the Go code by running the extracted Store.run and the implementation on the same histories (every return value compared).",
          "Model is hand-written Gallina following treap.go/collection.go; the cache (lazy loading, eviction) is exercised on the implementation, not modelled in Store.v; toBa/*Any wrappers not modelled."),
- "C02": ("Coq proof over the disk model (flush/open round trip) + differential: after every step a fresh Store on a copy of the file image vs the reference state of the last successful Flush",
-         "Durability stated as open(flush) round trip over the byte-level model; every step of every history re-opens a copy of the image.",
+ "C02": ("Coq proof: the byte-level store DStore (Flush = appended records, re-open = independent decoder, FlushRevert = backward scan + truncate) refines the abstract store with a stack of flushed states over whole histories (dstore_refines_store_exact), plus the one-step flush/decode round trip; tie: byte-exact (length + MD5) comparison of the predicted file with the implementation's file after every Flush / FlushRevert / re-open, a fresh Store on a copy of the image after every step vs the reference, and the boolean hypothesis history_ok evaluated on every generated history",
+         "Theorem over all operation lists meeting a boolean side condition that is evaluated on every run (hypothesis monitoring); every step of every history re-opens a copy of the image.",
          "encoding/json modelled for canonical output and ASCII names (names that are not valid UTF-8: known limitation D6); in-memory StoreFile."),
  "C03": ("Coq proof: backward root scan finds the greatest valid root end; any prefix/cut/junk of a disciplined append sequence recovers the previous root; correspondence: crash images rebuilt from the implementation's write log (every write boundary, byte cuts, junk) re-opened and compared",
          "Theorem quantifies over all files, all append sequences of the stated shape, all cut points and junk; the implementation's write log is checked against the discipline and thousands of crash images per run are opened.",
          "Go's encoding/json accepts more than the model's JSON decoder; junk that only Go accepts as a root is outside the model."),
- "C04": ("Coq proof over the version/recycling protocol model (Proto.v: a pinned version's cells are never freed and its tree never changes) + differential on contents of every open snapshot after every step + heap-dump invariants",
-         "Protocol invariant proved for every action sequence; every history step re-reads the original and every open snapshot against frozen reference maps.",
+ "C04": ("Coq proof: multi-handle store model MStore (original + snapshots, snapshots of snapshots, closes in any order): what an open snapshot answers is a function of the state at its creation for every operation list (snapshot_isolated), mutations through it are refused; version/recycling protocol model (Proto.v: a pinned version's cells are never freed and its tree never changes); tie: extracted MStore.mrun vs implementation on every history, contents of every open snapshot after every step, heap-dump invariants",
+         "Isolation proved for every operation list on the multi-handle model and for every action sequence of the protocol model; every history step re-reads the original and every open snapshot against frozen reference maps and the extracted model.",
          "FlushRevert on the original while snapshots are open is outside the property's listed operations (it truncates bytes a snapshot may need) and is not generated."),
  "C05": ("Coq proof: protocol invariant over every interleaving of atomic pin/build/cas/unpin actions (Proto.v) and lock-order facts over the regenerated call graph; tie: concurrent runs (1 mutator, 1 flusher, N readers) with reader results checked against the published versions",
          "Partial: the theorem is about atomic actions at lock granularity; Go memory-model effects inside a phase are only reached by stress runs (testing).",
@@ -28,9 +28,9 @@ P = {
  "C07": ("fault enumeration driven by the model-free oracles: every file call k of chosen API calls made to fail (writes torn), plus random faults with deferred verification; Coq: abort restores marks (Proto.v) so the recycling invariant carries over",
          "For each enumerated fault: error returned, no panic/hang, durable bytes unchanged, contents equal pre-fault reference, fresh Store on the image shows the last Flush, heap-dump invariant (no stale reclaim marks), fault-free continuation matches the reference.",
          "Known findings: Exist/ExistAny cannot report errors; FlushRevert right after a partially written failed Flush. Fault positions are enumerated per call, not per history exhaustively in quick tier."),
- "C08": ("Coq proof: the modelled backward scan / revert terminates for every file (fuel bound proved) and returns the previous valid root; differential on histories with 0..many flushes and runs of reverts, watchdog for termination",
-         "Termination and walk-back proved on the scan model for all files; histories compare contents, names, file length and a re-open of the image after every revert.",
-         "The scan model follows store.go readRootsScan/scanBackwardsForMagicEnd byte for byte on lists of bytes."),
+ "C08": ("Coq proof: the modelled backward scan / revert terminates for every file (fuel bound proved) and returns the previous valid root; history-level refinement of the byte-level store (runs of reverts, also past the first flush); the necessary side condition (no committed value that is itself a position-consistent root record) is proved necessary by a refutation witness, replayed on the implementation (known finding); differential on histories with 0..many flushes and runs of reverts, byte-exact file comparison, watchdog for termination",
+         "Termination and walk-back proved on the scan model for all files and over whole histories; histories compare contents, names, file length, file bytes and a re-open of the image after every revert.",
+         "The scan model follows store.go readRootsScan/scanBackwardsForMagicEnd byte for byte on lists of bytes. Known finding value-is-valid-root-record (format has no escaping/checksum)."),
  "C09": ("Coq proof over the call graph regenerated from the Go source on every run (closure certificate checked in Coq: no path from read-only entry points to a writer; exact set of write sites) + monitor on every WriteAt/Truncate the implementation issues",
          "Static theorem is re-checked against the current source on every run; the write/truncate log of every history of every check is checked against the append discipline.",
          "Translator (go/parser+go/types, over-approximating call graph) is trusted; CopyTo destination writes excluded statically, covered dynamically."),
